@@ -31,12 +31,12 @@ RULE = (
     'kinds, relative tag, ramps with edges, actors/channels, scalesettings; strings include quote, backslash, TAB, '
     'CR/LF, structure characters and non-ASCII; restrictions: event times have <= 6 decimals and distancetotarget '
     '>= 0 with 2 decimals (format widths of the writer), fps 10..240 (reader clamps), inactive curve edges are the '
-    'default edge, an event ramp has edges only when it has samples, use_combined_file only with enabled captions, '
+    'default edge, use_combined_file only with enabled captions, '
     'tag_name/tag_wav_name both set or both None, time_zoom_lookup empty and text_crc 0 (not part of the text form), '
-    'tag values 0..1, no flex animation tracks (the text reader raises NotImplementedError for them; a separate '
+    'tag values 0..1 (absolute tags 0..16 when the class accepts them; sub-engine abs-tag insists on that range), no flex animation tracks (the text reader raises NotImplementedError for them; a separate '
     'sub-engine vcd-flex reports that as a finding). '
-    'choreo binary (BVCD): times/floats are float32, ramp/tag/flex sample values are k/255, absolute tags k/4096 with '
-    'k <= 4096 (Tag validator caps at 1.0), loop_count -128..127, ramp samples carry the default curve type, '
+    'choreo binary (BVCD): times/floats are float32, ramp/tag/flex sample values are k/255, absolute tags k/4096 (k <= 65535 '
+    'when the class accepts values above 1.0, else k <= 4096), loop_count -128..127, ramp samples carry the default curve type, '
     'TimingTag.locked False, no VCD-only fields. scenes.image: 1-6 scenes from the binary generator with latin-1 '
     'NUL-free strings and times >= 0, unsorted input order, given as list or dict, versions 2 and 3; re-saved both via '
     'the raw-copy path and after every entry was parsed. '
@@ -46,7 +46,7 @@ RULE = (
     'their numeric value where they are numbers (Pitch); soundentry version 2 == forced or any non-empty stack. '
     'VMT: shader is a bare identifier, 0-6 parameters, 0-2 fallback blocks (nested), 0-3 proxies; strings are '
     'single-line without double quote (VMT has no escapes) but with backslash, TAB, apostrophe, brackets, braces; '
-    'no string starts with // or /*; parameter names unique case-insensitively and non-empty; no top-level block '
+    'parameter names unique case-insensitively and non-empty; no top-level block '
     'named proxies. PCF: 1-4 systems with options/operators of int, float (k/16), bool, ASCII string, vec2/3/4, '
     'color and int/float array attributes with mixed-case names, children referencing systems of the same file; '
     'written through Particle.export -> Element.export_binary (versions 2-5) or export_kv2 and read back with '
@@ -69,9 +69,9 @@ ASSUMPTIONS = [
 JOBS = {'quick': 4, 'thorough': 16}
 
 COUNTS = {  # engine -> (quick, thorough)
-    'cmdseq': (250, 6000), 'cmdseq-legacy': (60, 1000), 'vcd-text': (350, 9000), 'vcd-flex': (12, 100),
-    'bvcd': (350, 9000), 'scenes-image': (70, 2000), 'sndscript': (400, 10000), 'vmt': (400, 10000),
-    'pcf': (200, 5000), 'smd': (300, 8000),
+    'cmdseq': (1500, 60000), 'cmdseq-legacy': (300, 10000), 'vcd-text': (3000, 150000), 'vcd-flex': (12, 100),
+    'abs-tag': (100, 3000), 'bvcd': (3000, 150000), 'scenes-image': (160, 6000), 'sndscript': (3000, 150000),
+    'vmt': (3000, 200000), 'pcf': (1500, 80000), 'smd': (3000, 150000),
 }
 
 
@@ -162,7 +162,7 @@ def eng_cmdseq(run, rng, case) -> Tuple[Any, bool]:
     case['value'] = G.snap_cmdseq(x)
     w1, _ = laws(x, cmdseq_write, cmdseq_read, G.snap_cmdseq)
     n_cmds = sum(len(c) for c in x.values())
-    if len(w1) != 31 + 4 + 4 + 132 * len(x) + 1052 * n_cmds:
+    if len(w1) != 31 + 4 + 4 + 132 * len(x) + struct.calcsize('Bi260s260sii260sii') * n_cmds:
         raise Failure('layout', f'output is {len(w1)} bytes for {len(x)} sequences / {n_cmds} commands')
     run.count('cmdseq_commands', n_cmds)
     return case['value'], G.cmdseq_nontrivial(x)
@@ -222,7 +222,17 @@ def bvcd_read(blob: bytes):
 VCD_UNESCAPED_FIELDS = ('cc_token', 'scale_settings')
 
 
-def classify_vcd(f: Failure, text: Optional[str]) -> str:
+def _vcd_strip_unescaped(scene) -> None:
+    """Ablation: remove escape-set characters from the two strings the text writer emits without escape_text."""
+    def clean(s: str) -> str:
+        return ''.join(c for c in s if c not in G.ESCAPES)
+    scene.scale_settings = {clean(k): v for k, v in scene.scale_settings.items()}
+    for ev in scene.iter_events():
+        if hasattr(ev, 'cc_token'):
+            ev.cc_token = clean(ev.cc_token)
+
+
+def classify_vcd(f: Failure, text: Optional[str], regen: Optional[Callable[[], Any]] = None) -> str:
     blob = json.dumps(f.witness, default=repr) if f.witness is not None else ''
     if 'NotImplementedError' in f.msg or ('NotImplementedError' in blob and 'flexanimations' in blob):
         return 'vcd-text-flexanimations-reader-unimplemented'
@@ -230,17 +240,25 @@ def classify_vcd(f: Failure, text: Optional[str]) -> str:
         d = f.witness['diff']
         field = next((p for p in reversed(d['path'].split('/')) if p and not p.isdigit() and p != '__dict__'), '')
         want = d.get('want')
+        import re
+        if re.search(r'/events/\d+/ramp/(left|right)/active$', d['path']) and want is True and d.get('got') is False:
+            return 'vcd-text-event-ramp-edges-dropped'
         if field in VCD_UNESCAPED_FIELDS and isinstance(want, str) and any(c in want for c in G.ESCAPES):
             return 'vcd-text-string-unescaped'
         if field in VCD_UNESCAPED_FIELDS and d.get('got') == '<missing>':
             return 'vcd-text-string-unescaped'
         return 'vcd-text-field-mismatch:' + field
-    if f.stage == 'read' and text is not None:
-        # A reader error on text whose cc_token / scalesettings key line holds a raw quote or backslash.
-        for line in text.splitlines():
-            s = line.strip()
-            if s.startswith('cctoken "') and ('\\' in s[9:-1] or '"' in s[9:-1]):
+    if f.stage in ('read', 'idempotence') and regen is not None:
+        # Ablation: does the failure vanish once the two unescaped strings hold no escape-set character?
+        x = regen()
+        _vcd_strip_unescaped(x)
+        try:
+            laws(x, vcd_write, vcd_read, G.snap)
+            return 'vcd-text-string-unescaped'
+        except Failure as f2:
+            if f2.stage not in ('read', 'idempotence'):
                 return 'vcd-text-string-unescaped'
+    if f.stage == 'read':
         return 'vcd-text-reader-rejects-writer-output'
     return f'vcd-text-{f.stage}-failure'
 
@@ -265,6 +283,31 @@ def eng_vcd_flex(run, rng, case) -> Tuple[Any, bool]:
     case['value'] = G.snap(x)
     laws(x, vcd_write, vcd_read, G.snap)
     return case['value'], True
+
+
+def eng_abs_tag(run, rng, case) -> Tuple[Any, bool]:
+    """Absolute tags beyond 1.0 (the 16-bit field and the class docstring give them the range [0, 16))."""
+    from srctools import choreo
+    mode = rng.choice(('text', 'bin'))
+    x = G.gen_scene(rng, mode)
+    ev = G.gen_event(rng, mode, lambda: 'abs', False)
+    vals = [G.abs_value(rng, mode, True) for _ in range(rng.choice((1, 2, 3)))] + [rng.uniform(1.0, 15.9) if mode == 'text' else rng.randrange(4097, 65536) / 4096.0]
+    case['value'] = {'mode': mode, 'absolute_tag_values': vals}
+    tags = _call('construct', lambda: [choreo.AbsoluteTag(f't{i}', v) for i, v in enumerate(vals)])
+    (ev.absolute_playback_tags if rng.random() < 0.5 else ev.absolute_shifted_tags).extend(tags)
+    x.events.append(ev)
+    case['value']['scene'] = G.snap(x)
+    if mode == 'text':
+        laws(x, vcd_write, vcd_read, G.snap)
+    else:
+        laws(x, bvcd_write, bvcd_read, G.snap)
+    return case['value'], True
+
+
+def classify_abs_tag(f: Failure) -> str:
+    if f.stage == 'construct' and "'value' must be <= 1.0" in f.msg:
+        return 'choreo-absolute-tag-range-capped-at-1'
+    return f'choreo-abs-tag-{f.stage}-failure'
 
 
 BVCD_ABLATIONS: List[Tuple[str, Callable[[Any], None]]] = [
@@ -336,7 +379,25 @@ def gen_image(rng) -> Tuple[List[Tuple[str, Any]], int, bool]:
     return scenes, rng.choice((2, 3)), rng.random() < 0.5
 
 
-def classify_image(f: Failure) -> str:
+class _NoRun:
+    def count(self, *a, **k) -> None:
+        pass
+
+
+def classify_image(f: Failure, regen: Callable[[], Any]) -> str:
+    if f.stage in ('read', 'compare', 'rewrite', 'write'):
+        # Is it a defect of the embedded BVCD writer/reader?  Same ablation as the bvcd engine.
+        for key, strip in BVCD_ABLATIONS:
+            scenes, version, as_dict = regen()
+            for _, sc in scenes:
+                for ev in sc.iter_events():
+                    strip(ev)
+            try:
+                image_laws(_NoRun(), scenes, version, as_dict)
+            except Failure as f2:
+                if f2.stage in ('read', 'compare', 'rewrite', 'write'):
+                    continue
+            return key
     if f.stage == 'sorted':
         return 'image-entries-not-sorted'
     if f.stage == 'summary':
@@ -351,10 +412,15 @@ def classify_image(f: Failure) -> str:
 
 
 def eng_image(run, rng, case) -> Tuple[Any, bool]:
-    from srctools import choreo
     scenes, version, as_dict = gen_image(rng)
     case['value'] = {'version': version, 'as_dict': as_dict, 'files': [fn for fn, _ in scenes],
                      'scenes': [G.snap(s) for _, s in scenes]}
+    image_laws(run, scenes, version, as_dict)
+    return case['value'], any(G.scene_nontrivial(s) for _, s in scenes)
+
+
+def image_laws(run, scenes, version: int, as_dict: bool) -> None:
+    from srctools import choreo
 
     def build() -> Any:
         ents = [choreo.Entry.from_scene(fn, sc) for fn, sc in scenes]
@@ -408,7 +474,6 @@ def eng_image(run, rng, case) -> Tuple[Any, bool]:
     if w3 != w1:
         raise Failure('idempotence-reparsed', 'save(parse(save(x))) differs once the entries were parsed' + _where(w1, w3),
                       {'input_order': [int(e.checksum) for e in xlist], 'table': table})
-    return case['value'], any(G.scene_nontrivial(s) for _, s in scenes)
 
 
 # =================================================================================================== sndscript
@@ -468,7 +533,18 @@ def classify_vmt(f: Failure) -> str:
         if top in ('blocks', 'proxies') and isinstance(want, str) and isinstance(got, str) \
                 and any(c in want for c in '\\\t\'') and len(got) > len(want):
             return 'vmt-block-strings-escaped-but-read-verbatim'
+        if top == 'params' and got == '<missing>' or (isinstance(got, str) and got.startswith('len ')):
+            # a parameter vanished: was its line swallowed as a comment?
+            text = f.witness.get('output') or ''
+            if any(l.strip()[:1] in '/#' or ' /' in l or ' #' in l for l in text.splitlines()[2:]):
+                return 'vmt-bare-string-special-first-char'
         return 'vmt-field-mismatch:' + top
+    if f.stage == 'read' and ('Single slash found' in f.msg or 'Unexpected directive' in f.msg):
+        return 'vmt-bare-string-special-first-char'
+    if f.stage == 'read':
+        text = (f.witness or {}).get('output') or ''
+        if any(l.strip()[:1] in '/#' or ' /' in l or ' #' in l for l in text.splitlines()[2:]):
+            return 'vmt-bare-string-special-first-char'
     return f'vmt-{f.stage}-failure'
 
 
@@ -671,7 +747,7 @@ def eng_sample(run, kind: str, path: str) -> None:
 # =================================================================================================== driver
 ENGINES: Dict[str, Callable] = {
     'cmdseq': eng_cmdseq, 'cmdseq-legacy': eng_cmdseq_legacy, 'vcd-text': eng_vcd_text, 'vcd-flex': eng_vcd_flex,
-    'bvcd': eng_bvcd, 'scenes-image': eng_image, 'sndscript': eng_snd, 'vmt': eng_vmt, 'pcf': eng_pcf, 'smd': eng_smd,
+    'abs-tag': eng_abs_tag, 'bvcd': eng_bvcd, 'scenes-image': eng_image, 'sndscript': eng_snd, 'vmt': eng_vmt, 'pcf': eng_pcf, 'smd': eng_smd,
 }
 
 
@@ -683,12 +759,16 @@ def classify(engine: str, f: Failure, seed: int, index: int) -> str:
         text = f.witness.get('output')
     if engine in ('cmdseq', 'cmdseq-legacy'):
         return classify_cmdseq(f)
-    if engine in ('vcd-text', 'vcd-flex'):
+    if engine == 'vcd-text':
+        return classify_vcd(f, text, lambda: G.gen_scene(sub_rng(seed, engine, index), 'text'))
+    if engine == 'vcd-flex':
         return classify_vcd(f, text)
+    if engine == 'abs-tag':
+        return classify_abs_tag(f)
     if engine == 'bvcd':
         return classify_bvcd(f, lambda: G.gen_scene(sub_rng(seed, engine, index), 'bin'))
     if engine == 'scenes-image':
-        return classify_image(f)
+        return classify_image(f, lambda: gen_image(sub_rng(seed, engine, index)))
     if engine == 'sndscript':
         return classify_snd(f, text)
     if engine == 'vmt':
@@ -702,6 +782,7 @@ def classify(engine: str, f: Failure, seed: int, index: int) -> str:
 
 SAMPLE_CLASSIFIERS = {'vcd': 'vcd-text', 'bvcd': 'bvcd', 'pcf': 'pcf', 'vmt': 'vmt', 'smd': 'smd', 'cmdseq': 'cmdseq',
                       'image': 'scenes-image'}
+
 
 
 def run_case(run, engine: str, seed: int, index: int) -> None:
@@ -727,8 +808,8 @@ def run_sample(run, kind: str, path: str) -> None:
         eng_sample(run, kind, path)
     except Failure as f:
         eng = SAMPLE_CLASSIFIERS[kind]
-        if eng == 'bvcd':
-            mech = 'bvcd-sample-' + f.stage
+        if eng in ('bvcd', 'scenes-image'):
+            mech = eng + '-sample-' + f.stage
         else:
             mech = classify(eng, f, 0, 0)
         run.violation(f'{os.path.basename(path)}: {f.msg}', witness=f.witness, key=mech, engine='samples', case=case)
